@@ -176,6 +176,9 @@ func c13Commit(c *an.Ctx, fn *ssa.Function, what string, commit ssa.Instruction,
 }
 
 func runC13(c *an.Ctx) {
+	if n := sharedLoopCompleteness(c, "C13-R4", "filter/filterstorage.", "filter/internal/serviceblock."); n > 0 {
+		c.Ok("C13-R4", "element-wise loops", token.NoPos, "%d range loops of the index conversions examined: no invalid entry ends a conversion early", n)
+	}
 	c.Floor("C13-R1", 3)
 	c.Floor("C13-R2", 3)
 	c.Floor("C13-R3", 9)
